@@ -192,7 +192,8 @@ def body_factory(ctx):
                 if r[nm].unit != units0[nm]:
                     raise Violation("%s() changed the unit of %s" % (fname, nm), table_unit=str(units0[nm]), result_unit=str(r[nm].unit))
                 want = f(np.asarray(s[nm].value, dtype=float))
-                atol = 1e-5 * float(np.max(np.abs(np.asarray(s[nm].value, dtype=float)))) if nm in f4 else 1e-300
+                # (single precision: relative to the largest entry, and nothing below the smallest normal float32 counts)
+                atol = max(1e-5 * float(np.max(np.abs(np.asarray(s[nm].value, dtype=float)))), 1e-36) if nm in f4 else 1e-300
                 if not np.isclose(float(r[nm].to_value(units0[nm])[0]), want, rtol=1e-4 if nm in f4 else 1e-10, atol=atol):
                     raise Violation("%s() of column %s is wrong" % (fname, nm), got=float(r[nm].value[0]), want=float(want))
         with ctx.sut("median_period()"):
